@@ -26,6 +26,7 @@ import (
 	"strings"
 	"time"
 
+	"github.com/postalsys/muti-metroo/internal/protocol"
 	"github.com/postalsys/muti-metroo/internal/verifkit"
 )
 
@@ -423,6 +424,110 @@ func convReroute(rng *verifkit.Rand, g simGraph) *convResult {
 	if len(removed) == 0 {
 		res.Desc += " (no removable link)"
 	}
+	return res
+}
+
+// convJoinDuringRelay: class "joinrelay" — a link comes up while one of its ends is in the
+// middle of relaying an announcement. In a real agent the per-connection reader that relays
+// and the goroutine that registers a new peer (peer added to the peer set, then
+// handlePeerConnected -> SendFullTable) run concurrently; simnet reproduces one such
+// interleaving by executing the link-up from INSIDE the relaying agent's fan-out, at a
+// PRNG-chosen point: right after its GetPeerIDs snapshot or right after one of its SendToPeer
+// calls. One-round model: every agent announces exactly once (the two ends of the late link
+// after it is up, because an agent's own presence only travels in its own announcement), so
+// nothing that was lost at the join can be repaired by a later announcement.
+func convJoinDuringRelay(rng *verifkit.Rand, g simGraph) *convResult {
+	s := newSimNet(g.N, nil)
+	res := &convResult{S: s, G: g, Class: "joinrelay", Adverts: map[int][]simRouteKey{}, Quiesced: true}
+	sc := &simSched{DupPct: 5, MaxDups: 2, MaxSteps: 4000 + 400*(len(g.Edges)+1)*g.N}
+	// the late link: prefer a bridge (then one side can be reached through it only)
+	late := g.Edges[rng.Intn(len(g.Edges))]
+	var bridges [][2]int
+	for i, e := range g.Edges {
+		h := simGraph{N: g.N}
+		h.Edges = append(append([][2]int{}, g.Edges[:i]...), g.Edges[i+1:]...)
+		if !h.connected() {
+			bridges = append(bridges, e)
+		}
+	}
+	if len(bridges) > 0 && rng.Chance(3, 4) {
+		late = bridges[rng.Intn(len(bridges))]
+	}
+	// the relaying end is the one with more other links (a leaf relays nothing)
+	deg := func(x int) int {
+		d := 0
+		for _, e := range g.Edges {
+			if e != late && (e[0] == x || e[1] == x) {
+				d++
+			}
+		}
+		return d
+	}
+	relay, joiner := late[0], late[1]
+	if deg(joiner) > deg(relay) || (deg(joiner) == deg(relay) && rng.Bool()) {
+		relay, joiner = joiner, relay
+	}
+	for _, e := range g.Edges {
+		if e != late {
+			s.Connect(e[0], e[1])
+		}
+	}
+	for o := 0; o < g.N; o++ {
+		if o > 1 && rng.Bool() {
+			continue
+		}
+		for _, key := range []simRouteKey{
+			{Kind: "cidr", Key: simCIDR(o, rng.Chance(1, 4)).String()},
+			{Kind: "domain", Key: simDomain(o, rng.Bool(), 0)},
+			{Kind: "forward", Key: fmt.Sprintf("fwd-%d", o), Target: "127.0.0.1:80"},
+		} {
+			if s.AddLocal(o, key) {
+				res.Adverts[o] = append(res.Adverts[o], key)
+			}
+		}
+	}
+	// the join fires at the countdown-th fan-out event of the relaying end
+	countdown := rng.Intn(4)
+	joinedAt := "never during a relay"
+	s.Inject = func(node int, point string) {
+		if node != relay || s.Up(relay, joiner) || s.cur == nil || s.cur.To != relay || s.cur.Type != protocol.FrameRouteAdvertise {
+			return
+		}
+		if countdown > 0 {
+			countdown--
+			return
+		}
+		joinedAt = fmt.Sprintf("while agent %d relayed %s, after %s", relay, s.cur, point)
+		s.tr("join %d-%d injected after %s of the relay of #%d", relay, joiner, point, s.cur.ID)
+		s.Connect(relay, joiner)
+	}
+	var first []int
+	for o := 0; o < g.N; o++ {
+		if o != relay && o != joiner {
+			first = append(first, o)
+		}
+	}
+	verifkit.Shuffle(rng, first)
+	for _, o := range first {
+		s.Announce(o)
+		if rng.Bool() {
+			convSomeDeliveries(s, rng, rng.Intn(6))
+		}
+	}
+	res.Quiesced = s.simRunRandom(rng, sc)
+	s.Inject = nil
+	if !s.Up(relay, joiner) {
+		s.Connect(relay, joiner) // nothing was relayed by that end: plain late join
+	}
+	res.Quiesced = res.Quiesced && s.simRunRandom(rng, sc)
+	for _, o := range []int{relay, joiner} {
+		s.Announce(o)
+		if rng.Bool() {
+			convSomeDeliveries(s, rng, rng.Intn(6))
+		}
+	}
+	res.Quiesced = res.Quiesced && s.simRunRandom(rng, sc)
+	res.Desc = fmt.Sprintf("joinrelay %s late-link=%v relay-end=%d adverts=%v joined %s", g, late, relay, res.Adverts, joinedAt)
 	return res
 }
 
